@@ -30,6 +30,9 @@ def lifeRound (scripts : List (List Char)) (r : LRun) (j : Nat) : LRun := Id.run
         -- a request, then silence until the server expires the connection (the 408 follows the blocked answer), then the close
         r := { r with s := step (step r.s (.data i)) (.expire i), seen := r.seen.modify i (· ++ "200+408!;"), open_ := r.open_.set i false }
       else if a == 'A' then r := { r with s := step (step r.s (.data i)) (.gone i), open_ := r.open_.set i false }
+      else if a == 'S' || a == 's' then
+        -- the request is handled; both flushes of the streamed answer fail (the client is gone); then the read side sees the loss
+        r := { r with s := step (step (step (step r.s (.data i)) (.writeFail i)) (.writeFail i)) (.gone i), open_ := r.open_.set i false }
       else if a == 'C' || a == 'H' || a == 'X' then
         r := { r with s := step r.s (.gone i), open_ := r.open_.set i false }
       else if a == 'T' then waitT := true
